@@ -32,6 +32,9 @@ KERNELS = {
     "_fix_copy_chunks": ("cubed/core/rechunk.py", [("shape", "list Z"), ("copy_chunks", "list Z"), ("target_chunks", "list Z")], "list Z"),
     "_calculate_shared_chunks": ("cubed/vendor/rechunker/algorithm.py", [("read_chunks", "list Z"), ("write_chunks", "list Z")], "list Z"),
     "_count_intermediate_chunks": ("cubed/vendor/rechunker/algorithm.py", [("source_chunk", "Z"), ("target_chunk", "Z"), ("size", "Z")], "Z"),
+    "calculate_single_stage_io_ops": ("cubed/vendor/rechunker/algorithm.py", [("shape", "list Z"), ("in_chunks", "list Z"), ("out_chunks", "list Z")], "Z"),
+    # peak_projected_mem: primitive ops are records (projected_mem, chunk memory of the target); None entries are skipped
+    "peak_projected_mem": ("cubed/primitive/blockwise.py", [("primitive_ops", "list (option (Z * Z))")], "Z"),
     # natural-number kernels (lengths and chunk sizes): no subtraction occurs in them
     "_check_regular_chunks": ("cubed/vendor/dask/array/core.py", [("chunkset", "list (list nat)")], "bool"),
     "to_chunksize": ("cubed/utils.py", [("chunkset", "list (list nat)")], "option (list nat)"),
@@ -45,6 +48,9 @@ GEN_HEADER = r"""
 From CubedV Require Import Model.Util Model.Memory Model.Rechunk Model.Regular.
 From Gen Require Import Gen.
 Local Open Scope Z_scope.
+
+Lemma map2_map3_ext_ {A B C D} (f g : A -> B -> C -> D) a b c : (forall x y z, f x y z = g x y z) -> map3 f a b c = map3 g a b c.
+Proof. intros H. revert b c. induction a as [|x a IH]; intros [|y b] [|z c]; cbn; try reflexivity. now rewrite H, IH. Qed.
 """
 
 # kernel -> the equivalence with the hand-written model that Coq must accept
@@ -78,6 +84,42 @@ Proof. intros. reflexivity. Qed.
 Theorem gen_to_chunksize_equiv : forall cs, gen_to_chunksize cs = Regular.to_chunksize cs.
 Proof. intros. reflexivity. Qed.
 """,
+    "calculate_single_stage_io_ops": r"""
+Lemma map3_rotate {A B C D} (f : A -> B -> C -> D) : forall a b c,
+  map3 (fun x y z => f x y z) a b c = map3 (fun z x y => f x y z) c a b.
+Proof. induction a as [|x a IH]; intros [|y b] [|z c]; cbn; try reflexivity. now rewrite IH. Qed.
+
+Theorem gen_calculate_single_stage_io_ops_equiv : forall shape inc outc,
+  gen_calculate_single_stage_io_ops shape inc outc = io_ops shape inc outc.
+Proof.
+  intros. unfold gen_calculate_single_stage_io_ops, io_ops. f_equal.
+  rewrite (map3_rotate (fun a_ b_ c_ => gen__count_intermediate_chunks a_ b_ c_) inc outc shape).
+  apply map2_map3_ext_. intros. apply gen__count_intermediate_chunks_equiv.
+Qed.
+""",
+    "peak_projected_mem": r"""
+Definition mm_pair (m : mm) : Z * Z := (cur m, peak m).
+Lemma gen_peak_fold : forall (ps : list (option (Z * Z))) m,
+  fold_left (fun memory_modeller p_opt => match p_opt with None => memory_modeller | Some (p_projected_mem, p_chunkmem) =>
+      let memory_modeller := gen_MemoryModeller_allocate (fst memory_modeller) (snd memory_modeller) p_projected_mem in
+      let chunkmem := p_chunkmem in
+      let memory_modeller := gen_MemoryModeller_free (fst memory_modeller) (snd memory_modeller) (p_projected_mem - chunkmem) in memory_modeller end) ps (mm_pair m)
+  = mm_pair (fold_left peak_step (flat_map (fun o => match o with None => [] | Some p => [p] end) ps) m).
+Proof.
+  induction ps as [|[[pm cm]|] ps IH]; intros m; cbn [fold_left flat_map app].
+  - reflexivity.
+  - rewrite <- IH. f_equal.
+  - apply IH.
+Qed.
+
+Theorem gen_peak_projected_mem_equiv : forall ps,
+  gen_peak_projected_mem ps = peak_projected (flat_map (fun o => match o with None => [] | Some p => [p] end) ps).
+Proof.
+  intros. unfold gen_peak_projected_mem, peak_projected.
+  change ((0), (0)) with (mm_pair mm0).
+  etransitivity; [|exact (f_equal snd (gen_peak_fold ps mm0))]. reflexivity.
+Qed.
+""",
     "MemoryModeller.allocate": r"""
 Theorem gen_MemoryModeller_allocate_equiv : forall c p n,
   gen_MemoryModeller_allocate c p n = (cur (allocate {| cur := c; peak := p |} n), peak (allocate {| cur := c; peak := p |} n)).
@@ -89,7 +131,8 @@ Theorem gen_MemoryModeller_free_equiv : forall c p n,
 Proof. intros. reflexivity. Qed.
 """,
 }
-DEPS = {"to_chunksize": ["_check_regular_chunks"]}
+DEPS = {"to_chunksize": ["_check_regular_chunks"], "calculate_single_stage_io_ops": ["_count_intermediate_chunks"],
+        "peak_projected_mem": ["MemoryModeller.allocate", "MemoryModeller.free"]}
 
 
 
@@ -104,6 +147,14 @@ class Tr:
             return e.id
         if isinstance(e, ast.Constant) and isinstance(e.value, int) and not isinstance(e.value, bool):
             return f"({e.value})"
+        if isinstance(e, ast.Attribute) and isinstance(e.value, ast.Name) and getattr(self, "obj", None) == e.value.id and e.attr == "projected_mem":
+            return f"{e.value.id}_projected_mem"
+        if (isinstance(e, ast.Call) and isinstance(e.func, ast.Name) and e.func.id == "chunk_memory" and len(e.args) == 1
+                and isinstance(e.args[0], ast.Attribute) and isinstance(e.args[0].value, ast.Name) and getattr(self, "obj", None) == e.args[0].value.id
+                and e.args[0].attr == "target_array"):
+            return f"{e.args[0].value.id}_chunkmem"
+        if isinstance(e, ast.Attribute) and isinstance(e.value, ast.Name) and getattr(self, "modeller", None) == e.value.id and e.attr == "peak_mem":
+            return f"(snd {e.value.id})"
         if isinstance(e, ast.Attribute) and isinstance(e.value, ast.Name) and e.value.id in self.records and e.attr in self.records[e.value.id]:
             return f"{e.value.id}_{e.attr}"
         if isinstance(e, ast.Subscript) and isinstance(e.value, ast.Name):
@@ -150,6 +201,12 @@ class Tr:
                 if isinstance(a, ast.Call) and isinstance(a.func, ast.Name) and a.func.id == "set" and len(a.args) == 1:
                     return f"(distinct_count {self.expr(a.args[0])})"
                 return f"(length {self.expr(a)})"
+            if (fn == "prod" and len(e.args) == 1 and isinstance(e.args[0], ast.Call) and isinstance(e.args[0].func, ast.Name)
+                    and e.args[0].func.id == "map" and len(e.args[0].args) == 4 and isinstance(e.args[0].args[0], ast.Name)
+                    and e.args[0].args[0].id in KERNELS):
+                m = e.args[0]
+                xs = [self.expr(a) for a in m.args[1:]]
+                return f"(prodz (map3 (fun a_ b_ c_ => gen_{m.args[0].id} a_ b_ c_) {' '.join(xs)}))"
             if fn in KERNELS and not e.keywords:
                 return f"(gen_{fn} {' '.join(self.expr(a) for a in e.args)})"
             if fn == "lcm" and len(e.args) == 2:
@@ -175,6 +232,21 @@ class Tr:
             raise TranslationError("zip arity")
         body = self.expr(g.elt)
         return f"(map{len(names)} (fun {' '.join(names)} => {body}) {' '.join(srcs)})"
+
+    def modeller_stmts(self, body):
+        """statements inside the loop over primitive ops: local assignments and modeller.allocate / .free calls"""
+        if not body:
+            return self.modeller
+        s, rest = body[0], body[1:]
+        m = self.modeller
+        if isinstance(s, ast.Assign) and len(s.targets) == 1 and isinstance(s.targets[0], ast.Name):
+            return f"let {s.targets[0].id} := {self.expr(s.value)} in {self.modeller_stmts(rest)}"
+        if (isinstance(s, ast.Expr) and isinstance(s.value, ast.Call) and isinstance(s.value.func, ast.Attribute)
+                and isinstance(s.value.func.value, ast.Name) and s.value.func.value.id == m and s.value.func.attr in ("allocate", "free")
+                and len(s.value.args) == 1 and not s.value.keywords):
+            meth = f"gen_MemoryModeller_{s.value.func.attr}"
+            return f"let {m} := {meth} (fst {m}) (snd {m}) {self.expr(s.value.args[0])} in {self.modeller_stmts(rest)}"
+        raise TranslationError(f"statement in the modeller loop at line {getattr(s, 'lineno', '?')}")
 
     def cond(self, test):
         # truthiness of an int name: `if remainder:`
@@ -211,6 +283,25 @@ class Tr:
                 else:
                     raise TranslationError("loop body of a forall-loop")
             return f"forallb (fun {s.target.id} => {inner}) {self.expr(s.iter)}"
+        # memory_modeller = MemoryModeller(): the modeller state (current_mem, peak_mem) starts at (0, 0)
+        if (isinstance(s, ast.Assign) and len(s.targets) == 1 and isinstance(s.targets[0], ast.Name) and isinstance(s.value, ast.Call)
+                and isinstance(s.value.func, ast.Name) and s.value.func.id == "MemoryModeller" and not s.value.args and not s.value.keywords):
+            self.modeller = s.targets[0].id
+            return f"let {self.modeller} := ((0), (0)) in\n  {self.stmts(rest, result)}"
+        # for p in ops: [if p is None: continue]; statements over p's fields and the modeller
+        if (isinstance(s, ast.For) and isinstance(s.target, ast.Name) and not s.orelse and getattr(self, "modeller", None)
+                and s.body and isinstance(s.body[0], ast.If) and isinstance(s.body[0].test, ast.Compare)
+                and isinstance(s.body[0].test.left, ast.Name) and s.body[0].test.left.id == s.target.id
+                and isinstance(s.body[0].test.ops[0], ast.Is) and isinstance(s.body[0].test.comparators[0], ast.Constant)
+                and s.body[0].test.comparators[0].value is None and len(s.body[0].body) == 1 and isinstance(s.body[0].body[0], ast.Continue)
+                and not s.body[0].orelse):
+            p_ = s.target.id
+            self.obj = p_
+            inner = self.modeller_stmts(s.body[1:])
+            self.obj = None
+            m = self.modeller
+            return (f"let {m} := fold_left (fun {m} {p_}_opt => match {p_}_opt with None => {m} | Some ({p_}_projected_mem, {p_}_chunkmem) =>\n"
+                    f"      {inner} end) {self.expr(s.iter)} {m} in\n  {self.stmts(rest, result)}")
         # method: self.f = e / self.f op= e on declared record fields; falling off the end returns the state
         if isinstance(s, (ast.Assign, ast.AugAssign)) and "self" in self.records:
             t = s.targets[0] if isinstance(s, ast.Assign) and len(s.targets) == 1 else getattr(s, "target", None)
@@ -307,7 +398,7 @@ def check(names=None, repo=None, tag="all"):
     except Exception as e:
         return False, f"translation failed: {type(e).__name__}: {e}", ""
     text = ("(* GENERATED on every run from /repo by harness/translate.py - do not edit *)\n"
-            "From CubedV Require Import Model.Util Model.Rechunk Model.Regular.\nLocal Open Scope Z_scope.\n\n" + "\n".join(defs))
+            "From CubedV Require Import Model.Util Model.Memory Model.Rechunk Model.Regular.\nLocal Open Scope Z_scope.\n\n" + "\n".join(defs))
     (gen / "Gen.v").write_text(text)
     (gen / "GenEquiv.v").write_text(GEN_HEADER + "".join(EQUIV[n] for n in order))
     for f in ("Gen.v", "GenEquiv.v"):
